@@ -391,7 +391,7 @@ def run_hashseed(case, ctx):
   ctx.cls("target:" + m["target"])
   outs = {}
   for hs in case["hashseeds"]:
-    res = routes.run_potable(["@IN", "@OUT"], text, hashseed=str(hs))
+    res = routes.run_potable(["@IN", "@OUT"], text, hashseed=str(hs), stale_out=(hs == case["hashseeds"][-1]))  # one of the runs onto a path that held a longer table (C12r10)
     ctx.count("hashseed_runs")
     if res["rc"] != 0 or not res["exists"]:
       if "OverflowError" in res["err"]:
